@@ -109,7 +109,7 @@ def bytes_depth(v, d=0):
 
 
 NS_POOL = ['/', '/foo', '/a', '/b', '/chat', '/a/b', '/1', '/12-3', '/-', '/x?y=1', '/?q', '/é', '/\U0001f600',
-           '/a b', '/[', '/0', '/a-1', '/٣']
+           '/a b', '/[', '/0', '/a-1', '/٣', '/chat?next=/login?again=1', '/a??', '/?a?b?c', '/x?']
 
 
 def gen_namespace(rng, allow_none=True):
